@@ -32,6 +32,36 @@ def obs_of(r, feat, expect_empty=False):
             "hasApi": r.api() is not None, "nStubs": len(r.stubs), "expectEmpty": expect_empty}
 
 
+def sweep_jobs(v: Verdict):
+    """Collect (without running) the packages other checks would run; quick: the function-level packs, thorough: all."""
+    import importlib
+    import runner
+    from common import Verdict as V
+    names = ["C06", "C05", "C07", "C20"] if TIER == "quick" else ["C06", "C05", "C07", "C20", "C12", "C17", "C03", "C11", "C14", "C13", "C02", "C15", "C18"]
+    out = []
+    for n in names:
+        runner.DRY_RUN = []
+        try:
+            dummy = V(n)
+            importlib.import_module(f"checks.{n.lower()}").main(dummy)
+            for t in dummy.tlc_runs:
+                v.tlc_runs.append(t)
+        except Exception as e:  # noqa: BLE001
+            v.extra.setdefault("sweep_errors", []).append(f"{n}: {type(e).__name__}: {e}")
+        seen = set()
+        for j in runner.DRY_RUN or []:
+            key = (str(j["src"]), j["opts"].key())
+            if key not in seen:
+                seen.add(key)
+                out.append((n, j))
+        runner.DRY_RUN = None
+    sweep_jobs.cache = out
+    return out
+
+
+sweep_jobs.cache = []
+
+
 def main(v: Verdict) -> None:
     recs = generate(v, "Pipeline", "C01_MC.cfg", min_records=50, timeout=900)
     if not recs:
@@ -66,11 +96,20 @@ def main(v: Verdict) -> None:
     er = run_many([{"src": write_pkg(fs, "emptpk" + n[:4].replace("-", "")), "opts": Opts(), "timeout": 120} for n, fs in empties.items()])
     for (n, _), r in zip(empties.items(), er):
         obs.append({"id": f"empty:{n}", "obs": obs_of(r, ["empty", n], expect_empty=True)})
+    # the other checks stay silent about crashes (DESIGN 6.2): run their packages once and report crashes here
+    for name, job in sweep_jobs(v):
+        pass
+    sw = sweep_jobs.cache
+    if sw:
+        rs = run_many([{"src": j["src"], "opts": j["opts"], "timeout": 900} for _, j in sw])
+        for (name, j), r in zip(sw, rs):
+            obs.append({"id": f"sweep:{name}:{j['src'].name}:{j['opts'].key()}", "obs": obs_of(r, ["sweep", name])})
+    v.extra["swept_packages"] = len(sw)
     bad = judge(v, "C01_Trace", obs)
     by_id = {o["id"]: o for o in obs}
     for b in bad:
         o = by_id.get(b.get("subject"))
-        if o and o["obs"]["feature"] and o["obs"]["feature"][0] != "empty":
+        if o and o["obs"]["feature"] and o["obs"]["feature"][0] not in ("empty", "sweep"):
             b["python"] = features.module_source(o["obs"]["feature"], PKG)
     v.add_bad(bad)
     v.samples = [obs[0], obs[len(feats)]]
